@@ -802,6 +802,35 @@ impl Domain for ClusterDomain {
                     },
                 }
             },
+            "collide" => {
+                // collide <n>: the serialisation a peer's GetState waits for (`OrSWotSet::as_bytes`, run inside the keyspace actor),
+                // for a tombstone-only state of n ids that all fall into ONE bucket of rkyv's archived hash index, against the
+                // same state over ids 1..=n.  Prints the two durations' ratio bucket.
+                use std::hash::{Hash, Hasher};
+                let n = p_u64(t[1]);
+                let h = |key: u64| {
+                    let mut hasher = rkyv::collections::hash_index::HashBuilder::with_seeds(0x08576fb6170b5f5f, 0x587775eeb84a7e46, 0xac701115428ee569, 0x910feb91b92bb1cd);
+                    key.hash(&mut hasher);
+                    hasher.finish()
+                };
+                let time = |ids: Vec<u64>| {
+                    let mut set = datacake_crdt::OrSWotSet::<2>::default();
+                    for (k, id) in ids.iter().enumerate() {
+                        set.delete(*id, HLCTimestamp::new(Duration::from_secs(5000 + k as u64), 0, 7));
+                    }
+                    let start = std::time::Instant::now();
+                    let bytes = set.as_bytes().expect("ser");
+                    let took = start.elapsed();
+                    let same = datacake_crdt::OrSWotSet::<2>::from_bytes(&bytes).map(|b| dump_set(&b) == dump_set(&set)).unwrap_or(false);
+                    (took, same)
+                };
+                let colliding: Vec<u64> = (0u64..).filter(|id| h(*id) % n == 0).take(n as usize).collect();
+                let (slow, same1) = time(colliding);
+                let (fast, same2) = time((1..=n).collect());
+                let ratio = slow.as_micros().max(1) / fast.as_micros().max(1);
+                let verdict = if slow > Duration::from_millis(100) && ratio > 200 { "stalls" } else { "fine" };
+                format!("collide same={} {}", same1 && same2, verdict)
+            },
             "localstate" => {
                 let i = u(1);
                 let n = &self.nodes[i];
